@@ -28,6 +28,8 @@
  *
  * Process faults: exit0 exit1 sigkill sigsegv close_stdin close_stdout close_both
  * Message faults (pre_ready / pre_reply): see message_fault(); `after` = exit | serve | linger.
+ * `exit`   = the process is already dead when the VM sees the bad message (delivered by the helper),
+ * `serve`  = it carries on relaying as if nothing had happened,
  * `linger` = stop talking, keep the process alive (<= 20 s) until SIGTERM - a wedged co-process.
  */
 #ifndef _GNU_SOURCE
@@ -58,6 +60,7 @@ static int linger_ms = 1000;
 static char s_step[32] = "", s_fault[48] = "", s_after[16] = "";
 static int s_k = 0;
 static int armed = 0;
+static uint32_t pending_payload = 0;   /* req_hdr: bytes of the current request still unread */
 
 static void logf_(const char *fmt, ...) {
     char b[20000];
@@ -114,7 +117,18 @@ static int wr_all(int fd, const void *buf, size_t n) {
     return 1;
 }
 
+static int capture = 0;          /* collect instead of writing: the bytes are delivered after our death */
+static uint8_t *cap_buf = NULL;
+static size_t cap_len = 0;
+
 static void out(const void *buf, size_t n) {
+    if (capture) {
+        cap_buf = realloc(cap_buf, cap_len + n + 1);
+        if (!cap_buf) die(3, "HARNESS oom");
+        memcpy(cap_buf + cap_len, buf, n);
+        cap_len += n;
+        return;
+    }
     if (!wr_all(1, buf, n)) die(0, "vm-side write failed (VM closed its end)");
 }
 
@@ -159,6 +173,11 @@ static int is_process_fault(const char *f) {
 
 static void die_now(const char *f) {
     kill_real();
+    /* The kernel releases the descriptors of a dying process in no particular order (deferred
+     * fput), so the VM could see EOF on our stdout while our stdin is still open for a few
+     * microseconds, or the other way round.  Fix the order: stdin first.  (The other order is what
+     * the close_stdout fault produces.) */
+    close(0);
     if (!strcmp(f, "exit0")) _exit(0);
     if (!strcmp(f, "exit1")) _exit(1);
     if (!strcmp(f, "sigkill")) { kill(getpid(), SIGKILL); for (;;) pause(); }
@@ -176,11 +195,19 @@ static void process_fault_blocked(void) {
         close(0); close(1); kill_real(); msleep(linger_ms); die(0, "close_both lingered");
     } else if (!strcmp(f, "close_stdout")) {
         close(1);
+        while (pending_payload) {               /* stay in step with the VM's byte stream */
+            uint8_t junk[4096];
+            uint32_t c = pending_payload < sizeof junk ? pending_payload : (uint32_t)sizeof junk;
+            if (!rd_all(0, junk, c)) die(0, "EOF from VM inside a payload");
+            pending_payload -= c;
+        }
         serve(0);
         die(0, "served after close_stdout");
     }
     die_now(f);
 }
+
+static void deliver_after_death(const uint8_t *msg, size_t len, const char *how);
 
 /* Deliver `msg` (a complete, correct message) such that the fault is complete before the VM sees it. */
 static void process_fault_after_message(const uint8_t *msg, size_t len) {
@@ -203,7 +230,11 @@ static void process_fault_after_message(const uint8_t *msg, size_t len) {
         serve(0);
         die(0, "served after close_stdout");
     }
-    /* death faults: a helper delivers the message once this process is a zombie */
+    deliver_after_death(msg, len, f);
+}
+
+/* death faults: a helper delivers the bytes once this process is a zombie, then goes away itself */
+static void deliver_after_death(const uint8_t *msg, size_t len, const char *f) {
     int p[2];
     if (pipe(p) != 0) die(3, "HARNESS pipe failed");
     pid_t me = getpid();
@@ -325,8 +356,19 @@ static int message_fault(uint8_t type, const uint8_t *pay, uint32_t len, int *ne
     else if (!strcmp(f, "val_unsupported_tag")) { v[0] = TAG_STRUCT; memset(v + 1, 0, 8); vl = 9; }
     else if (!strcmp(f, "val_empty")) { vl = 0; send_msg(COP_MSG_FFI_RESULT, v, 0); return 1; }
     else if (!strcmp(f, "val_int_trunc")) { v[0] = TAG_INT; memset(v + 1, 0, 4); vl = 5; }
-    else if (!strcmp(f, "val_str_len_ffffffff")) { v[0] = TAG_STRING; u = 0xFFFFFFFFu; memcpy(v + 1, &u, 4); memcpy(v + 5, "abc", 3); vl = 8; }
-    else if (!strcmp(f, "val_str_len_7fffffff")) { v[0] = TAG_STRING; u = 0x7FFFFFFFu; memcpy(v + 1, &u, 4); memcpy(v + 5, "abc", 3); vl = 8; }
+    else if (sscanf(f, "val_str_len_%x", &n) == 1) {   /* 3 bytes of text, announced as n */
+        v[0] = TAG_STRING; u = n; memcpy(v + 1, &u, 4); memcpy(v + 5, "abc", 3); vl = 8;
+    }
+    else if (!strcmp(f, "val_big_str_over")) {          /* too big for any stack buffer, and lying about its length */
+        uint32_t bl = 10000;
+        uint8_t *b = malloc(bl);
+        if (!b) die(3, "HARNESS oom");
+        memset(b, 'x', bl);
+        b[0] = TAG_STRING; u = 20000; memcpy(b + 1, &u, 4);
+        send_msg(COP_MSG_FFI_RESULT, b, bl);
+        free(b);
+        return 1;
+    }
     else if (!strcmp(f, "val_str_len_plus1")) { v[0] = TAG_STRING; u = 4; memcpy(v + 1, &u, 4); memcpy(v + 5, "abc", 3); vl = 8; }
     else if (!strcmp(f, "val_str_no_len")) { v[0] = TAG_STRING; v[1] = 3; vl = 2; }
     else if (!strcmp(f, "val_arr_count_ffffffff")) { v[0] = TAG_ARRAY; v[1] = TAG_INT; u = 0xFFFFFFFFu; memcpy(v + 2, &u, 4); vl = 6; }
@@ -361,6 +403,14 @@ static int message_fault(uint8_t type, const uint8_t *pay, uint32_t len, int *ne
 
 static void message_fault_and_after(uint8_t type, const uint8_t *pay, uint32_t len) {
     int need_eof = 0;
+    if (strcmp(s_after, "exit") == 0) {
+        /* "answers with a bad message and exits": the exit is complete before the VM can see the
+         * message (exiting right after the write would race the VM's next write to us) */
+        capture = 1;
+        if (!message_fault(type, pay, len, &need_eof)) die(3, "HARNESS unknown fault");
+        capture = 0;
+        deliver_after_death(cap_buf, cap_len, "exit0");
+    }
     logf_("INJECTED %d %s %d %s %s", launch_no, s_step, s_k, s_fault, s_after);
     if (!message_fault(type, pay, len, &need_eof)) die(3, "HARNESS unknown fault");
     do_after(need_eof);
@@ -416,6 +466,7 @@ static void serve(int vm_out) {
             }
             if ((uint32_t)avail < len) die(3, "HARNESS request payload never arrived");
             armed = 0;
+            pending_payload = len;
             process_fault_blocked();
         }
 
